@@ -4,7 +4,6 @@ import (
 	"fmt"
 	"regexp"
 	"strings"
-	"unicode"
 
 	"golang.org/x/net/html"
 	"golang.org/x/net/html/atom"
@@ -299,7 +298,7 @@ func (f *Formatter) formatNode(n *html.Node, buf *strings.Builder, depth int) {
 		buf.WriteString("\n")
 
 	case html.TextNode:
-		text := strings.TrimSpace(n.Data)
+		text := trimHTMLSpace(n.Data)
 		if text != "" {
 			buf.WriteString(indent)
 			buf.WriteString(escapeText(text))
@@ -484,7 +483,7 @@ func (f *Formatter) renderInlineChildren(n *html.Node) string {
 			}
 		}
 	}
-	return strings.TrimSpace(b.String())
+	return trimHTMLSpace(b.String())
 }
 
 // escapeText escapes HTML-significant characters (&, <, >) in text content.
@@ -543,7 +542,7 @@ func trimRawContent(s string) string {
 // normalizeInlineText collapses whitespace in inline text while preserving
 // boundary spaces needed between inline elements and text.
 func normalizeInlineText(s string) string {
-	trimmed := strings.TrimSpace(s)
+	trimmed := trimHTMLSpace(s)
 	if trimmed == "" {
 		// Whitespace-only text between inline elements: preserve as single space
 		if len(s) > 0 {
@@ -553,21 +552,30 @@ func normalizeInlineText(s string) string {
 	}
 
 	// Collapse internal whitespace runs to single spaces
-	fields := strings.Fields(trimmed)
-	out := strings.Join(fields, " ")
+	out := strings.Join(strings.FieldsFunc(trimmed, isHTMLSpace), " ")
 
 	// Preserve leading space if original had one (boundary between elements)
-	runes := []rune(s)
-	if len(runes) > 0 && unicode.IsSpace(runes[0]) {
+	if isHTMLSpace(rune(s[0])) {
 		out = " " + out
 	}
 
 	// Preserve trailing space if original had one
-	if len(runes) > 0 && unicode.IsSpace(runes[len(runes)-1]) {
+	if isHTMLSpace(rune(s[len(s)-1])) {
 		out = out + " "
 	}
 
 	return out
+}
+
+// isHTMLSpace reports whether r is whitespace for HTML. A non-breaking space (U+00A0) and
+// the other Unicode spaces are content.
+func isHTMLSpace(r rune) bool {
+	return r == ' ' || r == '\t' || r == '\n' || r == '\r' || r == '\f'
+}
+
+// trimHTMLSpace removes leading and trailing HTML whitespace.
+func trimHTMLSpace(s string) string {
+	return strings.TrimFunc(s, isHTMLSpace)
 }
 
 // isIgnorableWhitespace checks if a text node is only whitespace between block elements.
@@ -575,7 +583,7 @@ func (f *Formatter) isIgnorableWhitespace(n *html.Node) bool {
 	if n.Type != html.TextNode {
 		return false
 	}
-	return strings.TrimSpace(n.Data) == ""
+	return trimHTMLSpace(n.Data) == ""
 }
 
 // renderOpenTag renders an opening tag with attributes.
